@@ -223,3 +223,46 @@ Fixpoint uniformb (d : nat) (t : tree) : bool :=
   | S d', Node ch => forallb (fun l => uniformb d' (fst l)) ch
   | _, _ => false
   end.
+
+(* ---- adder/ipfsadd/add.go Adder.add: `if adder.Trickle { trickle.Layout(db) } else { balanced.Layout(db) }` on the
+   chunks of chunker.FromString(reader, "size-k") with Maxlinks = helpers.DefaultLinksPerBlock ---- *)
+Definition importer (trickle : bool) (ml k : N) (bs : bytes) : ierr + (tree * N * list tree) :=
+  if trickle then trickle_layout ml (chunk k bs) else balanced_layout ml (chunk k bs).
+(* the least links-per-block for which the layout terminates (Proofs: importer_total; balanced_one_link_diverges) *)
+Definition min_links (trickle : bool) : N := if trickle then 1 else 2.
+
+(* ---- vocabulary of the statements (Props/C13.v) ---- *)
+Fixpoint all_but_last {A} (P : A -> Prop) (l : list A) : Prop :=
+  match l with
+  | [] => True
+  | x :: r => match r with [] => True | _ => P x end /\ all_but_last P r
+  end.
+
+(* a property of every block of a DAG *)
+Definition all_nodes (P : tree -> Prop) (t : tree) : Prop := forall n, In n (postorder t) -> P n.
+
+(* every link of a node records the number of file bytes below it *)
+Definition sized (n : tree) : Prop :=
+  match n with Leaf _ => True | Node ch => Forall (fun l => snd l = tsize (fst l)) ch end.
+
+(* an internal node: between 1 and maxlinks children, every link records the bytes below it *)
+Definition node_ok (ml : N) (n : tree) : Prop :=
+  match n with
+  | Leaf _ => True
+  | Node ch => 1 <= N.of_nat (length ch) <= ml /\ Forall (fun l => snd l = tsize (fst l)) ch
+  end.
+
+(* every leaf at depth d *)
+Fixpoint uniform (d : nat) (t : tree) : Prop :=
+  match d, t with
+  | O, Leaf _ => True
+  | S d', Node ch => forall l, In l ch -> uniform d' (fst l)
+  | _, _ => False
+  end.
+
+(* an internal node below the root is never empty; every link records the bytes below it *)
+Definition tnode_ok (n : tree) : Prop :=
+  match n with
+  | Leaf _ => True
+  | Node ch => ch <> [] /\ Forall (fun l => snd l = tsize (fst l)) ch
+  end.
